@@ -141,7 +141,7 @@ theorem args_two {a b : IExpr} (ha : ∃ t, HasType Γ a t) (hb : ∃ t, HasType
   obtain ⟨_, ha⟩ := ha; obtain ⟨_, hb⟩ := hb; exact ⟨_, .cons ha (.cons hb .nil)⟩
 
 theorem elabUn_children {o : UnOp} {e n : IExpr} {τ τ' : ETy} (he : ∃ t, HasType Γ e t)
-    (h : elabUn o e τ = .ok (n, τ')) : ChildrenTyped Γ n := by
+    (h : elabUn Γ o e τ = .ok (n, τ')) : ChildrenTyped Γ n := by
   unfold elabUn at h
   cases o <;> simp only at h
   all_goals (repeat' split at h)
@@ -168,7 +168,7 @@ theorem elabArith_children {o : BinOp} {a b n : IExpr} {τa τb τ' : ETy} (ha :
   all_goals exact arithBuild_children ha hb h
 
 theorem elabAssign_children {o : BinOp} {a b n : IExpr} {τa τb τ' : ETy} (ha : ∃ t, HasType Γ a t)
-    (hb : ∃ t, HasType Γ b t) (h : elabAssign o a τa b τb = .ok (n, τ')) : ChildrenTyped Γ n := by
+    (hb : ∃ t, HasType Γ b t) (h : elabAssign Γ o a τa b τb = .ok (n, τ')) : ChildrenTyped Γ n := by
   unfold elabAssign at h
   repeat' split at h
   all_goals (first | (simp at h; done) | skip)
